@@ -250,6 +250,26 @@ func (t *Table) parseStartKey(schema keySchema, startkeyAttr map[string]*types.I
 	return startKey
 }
 
+// ValidateStartKey checks the ExclusiveStartKey of a read: it has to be a key of the table and,
+// for a read through an index, hold the key of that index as well
+func (t *Table) ValidateStartKey(indexName string, startKey map[string]*types.Item) error {
+	if len(startKey) == 0 {
+		return nil
+	}
+
+	if _, err := t.KeySchema.GetKey(t.AttributesDef, startKey); err != nil {
+		return types.NewError("ValidationException", "The provided starting key is invalid: "+err.Error(), nil)
+	}
+
+	if index, ok := t.Indexes[indexName]; ok {
+		if key, err := index.keySchema.GetKey(t.AttributesDef, startKey); err != nil || key == "" {
+			return types.NewError("ValidationException", "The provided starting key is invalid", nil)
+		}
+	}
+
+	return nil
+}
+
 func getPrimaryKey(index *index, k string) (string, bool) {
 	pk, ok := k, true
 
